@@ -268,6 +268,8 @@ def run(F, rep):
     if n_p < 2:
         raise AnalysisBroken('C08.P1: path guards of the reducers vanished (%d found, 2 confirmed)' % n_p)
 
+    recursion.rule_stack_discipline(F, rep, 'C08.P2', lambda g_: g_.file.endswith('/units.cpp'), 2, 'units.cpp (isDefined() decides compatible/scalingFactor)')
+
     rep.rule('C08.G2', 'Units::compatible can answer true only for units that are both fully defined: every return that can be true is reached only where isDefined() held for both arguments '
                        '(a shortcut such as "the same object is compatible with itself" in front of those gates contradicts scalingFactor, which still yields 0)')
     cpf = F.fn1('libcellml::Units::compatible')
